@@ -104,7 +104,7 @@ func c18Refusals(c *core.Ctx) {
 		}
 	}
 	check("updater.setAuthExternal", []refusal{
-		{has("external.HasLua"), false, "external haproxy without Lua json", false},
+		{has(".HasLua"), false, "external haproxy without Lua json", false},
 		{has("ParseURL(", "#4 != nil)"), true, "unparsable URL", false},
 		{func(k string) bool { return strings.Contains(k, "lookupHost") && strings.HasSuffix(k, " != nil)") }, true, "unresolvable host name", false},
 		{has(`ParseURL(`, `#2 == "")`), true, "service without port", false},
@@ -115,7 +115,7 @@ func c18Refusals(c *core.Ctx) {
 	})
 	check("updater.buildBackendOAuth", []refusal{
 		{has(`oauth2-proxy")`), true, "unknown oauth implementation", false},
-		{has("external.HasLua"), false, "external haproxy without Lua json", false},
+		{has(".HasLua"), false, "external haproxy without Lua json", false},
 		{has("findBackend(", " == nil)"), true, "oauth service path not found", false},
 	})
 	// unknown protocol: the default branch of the protocol switch returns
